@@ -1,6 +1,7 @@
 package sym
 
 import (
+	"fmt"
 	"go/types"
 	"strings"
 )
@@ -155,4 +156,86 @@ func registerJSON(e *Engine) {
 		p := FreshVar("json.payload", SString, 0)
 		return c.Return(Tuple{Bytes{S: p}, Iface{}})
 	}
+}
+
+// sort.Slice / sort.SliceStable (n <= 12): stable insertion sort calling the real less
+// closure (Go's pdqsort uses insertion sort for n <= 12, hence is stable there). The
+// intrinsic is re-entered after every less() call; progress lives in the Ghost store.
+func registerSort(e *Engine) {
+	sorter := func(c *Call) []*State {
+		gk := fmt.Sprintf("sort:%d:%d", c.Th.ID, len(c.Th.Frames))
+		iface := c.Args[0].(Iface)
+		sl, ok := iface.V.(Slice)
+		if !ok {
+			panic(unsupported("sort.Slice on non-slice"))
+		}
+		less := c.Args[1].(*Closure)
+		n := sl.Len
+		if n > 12 {
+			panic(unsupported("sort.Slice with more than 12 elements (stability model)"))
+		}
+		finish := func() []*State {
+			delete(c.St.Ghost, gk)
+			delete(c.St.Ghost, gk+":ret")
+			delete(c.St.Ghost, gk+":dec")
+			return c.Return(nil)
+		}
+		if n < 2 {
+			return finish()
+		}
+		i, j := 1, 1
+		callLess := func(st *State, th *Thread, i, j int) {
+			st.Ghost[gk] = Tuple{BVC(uint64(i), 64), BVC(uint64(j), 64)}
+			th.top().IP-- // re-enter after less returns
+			nfr := len(th.Frames)
+			if succ := e.invoke(st, th, less, []Value{BVC(uint64(j), 64), BVC(uint64(j-1), 64)}, nil, c.Instr, false); succ != nil {
+				panic(unsupported("sort: less is a forking intrinsic"))
+			}
+			if len(th.Frames) > nfr {
+				th.top().OnRet = gk + ":ret"
+			}
+		}
+		stv, started := c.St.Ghost[gk]
+		if !started {
+			callLess(c.St, c.Th, i, j)
+			return nil
+		}
+		tp := stv.(Tuple)
+		i, j = int(tp[0].(*Term).U), int(tp[1].(*Term).U)
+		var r *Term
+		if d, ok := c.St.Ghost[gk+":dec"]; ok {
+			r = d.(*Term)
+			delete(c.St.Ghost, gk+":dec")
+		} else {
+			r = c.St.Ghost[gk+":ret"].(*Term)
+			if !r.Const {
+				// decide the comparison by forking; each side re-enters with the decision recorded
+				return c.outcomesNoRet(c.sol2(), []Outcome{
+					{Cond: r, Eff: func(st *State) { st.Ghost[gk+":dec"] = True; st.Threads[c.Th.ID].top().IP-- }},
+					{Cond: Not(r), Eff: func(st *State) { st.Ghost[gk+":dec"] = False; st.Threads[c.Th.ID].top().IP-- }},
+				})
+			}
+		}
+		if r.B {
+			a := Ptr{Obj: sl.Obj, Path: []int{sl.Off + j}}
+			b := Ptr{Obj: sl.Obj, Path: []int{sl.Off + j - 1}}
+			va, vb := c.St.Load(a), c.St.Load(b)
+			c.St.Store(a, vb)
+			c.St.Store(b, va)
+			j--
+			if j > 0 {
+				callLess(c.St, c.Th, i, j)
+				return nil
+			}
+		}
+		i++
+		j = i
+		if i >= n {
+			return finish()
+		}
+		callLess(c.St, c.Th, i, j)
+		return nil
+	}
+	e.Intr["sort.Slice"] = sorter
+	e.Intr["sort.SliceStable"] = sorter
 }
